@@ -389,6 +389,78 @@ def check_eq_select(rep, cfg):
         rep.ob("TERM/R/%s" % norm_path(p), ok, "conditional select must pick both coordinates of the same operand: (cond ? t.x : f.x, cond ? t.y : f.y); got %s" % Tm.show(inner, maxdepth=5), where=cfg.where(p))
 
 
+def check_gadget_identity_predicates(rep, cfg):
+    """the in-circuit zero test of both ElementVar layers.  Inherited from ark-r1cs-std: `self.is_eq(&Self::zero())`, i.e. the crate's own Decaf
+    equality against the identity (X == 0 for every representative).  Overridden: the override is interpreted and must be that predicate - the
+    curve-point test of the inner AffineVar (x == 0 AND y == 1) is false on the (0, -1) representative, where the native is_identity is true."""
+    N = P.Norm(K.Q)
+    n = 0
+    for im in cfg.facts["impls"]:
+        if im.get("trait_def") != "ark_r1cs_std::groups::CurveVar" or "ElementVar" not in im.get("self", ""):
+            continue
+        layer = "inner" if "inner::ElementVar" in im["self"] else "outer"
+        key = "IDENT/R/%s::ElementVar::is_zero" % layer
+        n += 1
+        if "is_zero" in (im.get("inherited") or []):
+            rep.ob(key, True, "inherited ark-r1cs-std default is_eq(self, zero()): the crate's Decaf equality against the identity", nontrivial=False)
+            continue
+        path = next((it["path"] for it in im["items"] if it["name"] == "is_zero"), None)
+        if path is None or cfg.prog.body(path) is None:
+            rep.ob(key, False, "overriding is_zero not found")
+            continue
+        loc = {}
+        if layer == "outer":
+            # the lazy cell hands out the inner element; the inner layer's own is_zero is judged by its own instance
+            for q_ in cfg.prog.bodies:
+                if q_.endswith("lazy::LazyElementVar::element"):
+                    loc[q_] = (lambda ctx: variant("Ok", mk("INNER_EL", ctx.args[0])))
+                if q_.endswith("::is_zero") and "inner::ElementVar" in q_:
+                    loc[q_] = (lambda ctx: variant("Ok", mk("inner_is_zero", ctx.args[0])))
+        out = cfg.run(path, local=loc)
+        v = ok_payload(out.value)
+        S_ = mk("param", "self")
+        if layer == "inner":
+            x = field(field(S_, "inner"), "x")
+            want = Tm.eq(x, mk("felem", "fq", 0))
+            ok = v is not None and N.cond(v) == N.cond(want) and not out.unmodelled
+        else:
+            ok = v is not None and v.op == "inner_is_zero" and not out.unmodelled
+        rep.ob(key, ok, "an overriding is_zero must be the Decaf identity test X == 0 (true for both representatives of the identity), as the inherited "
+                        "is_eq(self, zero()) is; got %s" % Tm.show(v if v is not None else out.value, maxdepth=5), where=cfg.where(path))
+    return n
+
+
+GADGET_DEFAULTS = {
+    # provided methods of the ark-r1cs-std traits that both ElementVar layers INHERIT on the pinned tree.  Their behaviour is the external default
+    # applied to the crate's required methods (which the TERM / FWD / ALLOC rules examine).  If one of them becomes an override, crate code that
+    # no rule interprets sits behind a public gadget entry point: reported, unless a dedicated rule handles it (is_zero: IDENT above).
+    "ark_r1cs_std::eq::EqGadget": ("is_neq", "enforce_equal", "enforce_not_equal"),
+    "ark_r1cs_std::R1CSVar": ("is_constant",),
+    "ark_r1cs_std::select::CondSelectGadget": ("conditionally_select_power_of_two_vector",),
+    "ark_r1cs_std::alloc::AllocVar": ("new_constant", "new_input", "new_witness"),
+    "ark_r1cs_std::ToBitsGadget": ("to_non_unique_bits_le", "to_bits_be", "to_non_unique_bits_be"),
+    "ark_r1cs_std::ToBytesGadget": ("to_non_unique_bytes",),
+    "ark_r1cs_std::groups::CurveVar": ("double", "scalar_mul_le", "precomputed_base_scalar_mul_le", "precomputed_base_multiscalar_mul_le"),
+}
+
+
+def check_gadget_default_set(rep, cfg):
+    n = 0
+    for im in cfg.facts["impls"]:
+        td = im.get("trait_def")
+        if td not in GADGET_DEFAULTS or "ElementVar" not in im.get("self", "") or "r1cs" not in im.get("self", ""):
+            continue
+        layer = "inner" if "inner::ElementVar" in im["self"] else "outer"
+        inh = set(im.get("inherited") or [])
+        for name in GADGET_DEFAULTS[td]:
+            n += 1
+            rep.ob("DEFAULT/R/%s::ElementVar::%s::%s" % (layer, td.split("::")[-1], name), name in inh,
+                   "%s::%s is %s" % (td, name, "inherited (external default over the crate's required methods)" if name in inh else
+                                     "now OVERRIDDEN by the crate: a public gadget entry point whose body no rule of this check interprets - verify it and add a rule, or drop the override"),
+                   where=im.get("sp"), nontrivial=False)
+    return n
+
+
 def check_sign_gadget(rep, cfg):
     base = "<ark_r1cs_std::fields::fp::FpVar<fields::fq::u64::wrapper::Fq> as ark_curve::r1cs::fqvar_ext::FqVarExtension>::"
     S_ = mk("param", "self")
